@@ -71,10 +71,57 @@ def undumpAll (ts : List String) : Option Expr :=
 
 def hasEsc (q : Char) (s : String) : Bool := s.toList.contains q
 
+/-- value class of a float from its canonical text (what the generator must reach: whole values at and beyond
+2^63 where an int64 conversion overflows, beyond 2^53 where digits exceed the mantissa, 16/17 significant digits,
+tiny fractions, negative zero, the top of the range) -/
+def floatClasses (c : String) : List String :=
+  let cs := c.toList
+  let neg := cs.head? == some '-'
+  let t := if neg then cs.drop 1 else cs
+  let ip := t.takeWhile (· ≠ '.')
+  let fp := (t.dropWhile (· ≠ '.')).drop 1
+  let whole := fp == ['0']
+  let n := F64.natOfDigits ip
+  let digits := stripLeadingZeros (ip ++ (if whole then [] else fp))
+  let sig := (F64.stripTrailingZeros digits).length
+  (if neg then ["num-float-negative"] else []) ++
+  (if c == "-0.0" then ["num-float-negzero"] else []) ++
+  (if whole && n ≥ 9223372036854775808 then ["num-float-whole-ge-2^63"] else []) ++
+  (if whole && n ≥ 9007199254740992 && n < 9223372036854775808 then ["num-float-whole-2^53..2^63"] else []) ++
+  (if n ≥ 10 ^ 300 then ["num-float-near-max"] else []) ++
+  (if sig ≥ 16 then ["num-float-16-17-digits"] else []) ++
+  (if n == 0 && !whole && (fp.takeWhile (· == '0')).length ≥ 6 then ["num-float-tiny"] else []) ++
+  (if n == 0 && !whole && (fp.takeWhile (· == '0')).length ≥ 300 then ["num-float-subnormal"] else [])
+
+def intClasses (v : Int) : List String :=
+  (if v == int64Max then ["num-int-max"] else []) ++
+  (if v == -int64Max then ["num-int-min-plus-1"] else []) ++
+  (if v.natAbs > 9007199254740992 then ["num-int-beyond-2^53"] else [])
+
+/-- the canonical text of a float VALUE is canonical in the model too (ties strconv.FormatFloat of the harness
+dump to `F64.fmt` for values that did not come from a literal) -/
+def fltCanonical (c : String) : Bool :=
+  let cs := c.toList
+  let t := if cs.head? == some '-' then cs.drop 1 else cs
+  decide (canonFloat t = .ok (String.ofList t))
+
+/-- number classes met in an observed dump (script level: the expression model is off there) -/
+def dumpNumClasses : List String → List String
+  | "num" :: "f" :: v :: rest => floatClasses v ++ dumpNumClasses rest
+  | "num" :: "i" :: _ :: v :: rest => (match v.toInt? with | some x => intClasses x | none => []) ++ dumpNumClasses rest
+  | _ :: rest => dumpNumClasses rest
+  | [] => []
+
+/-- all float texts of an observed dump -/
+def dumpFloats : List String → List String
+  | "num" :: "f" :: v :: rest => v :: dumpFloats rest
+  | _ :: rest => dumpFloats rest
+  | [] => []
+
 partial def branches : Expr → List String
-  | .lit (.num (.int 8 _)) => ["num-octal"]
-  | .lit (.num (.int _ v)) => if v < 0 then ["num-negative"] else ["num-int"]
-  | .lit (.num (.flt _)) => ["num-float"]
+  | .lit (.num (.int 8 v)) => "num-octal" :: intClasses v
+  | .lit (.num (.int _ v)) => (if v < 0 then "num-negative" else "num-int") :: intClasses v
+  | .lit (.num (.flt c)) => "num-float" :: floatClasses c
   | .lit (.dur _ l) => if l.isEmpty then ["dur-noliteral"] else ["dur"]
   | .lit (.bool _) => ["bool"]
   | .lit (.str l t) => (if t then ["str-triple"] else ["str-single"]) ++ (if hasEsc '\'' l then ["str-quote-inside"] else []) ++ (if hasEsc '\\' l then ["str-backslash-inside"] else [])
@@ -213,6 +260,7 @@ structure St where
   curP : Res Program := .err
   progOff : Option String := none      -- statement-level model said "not covered"
   pnodes : Option (List PNode) := none -- the nodes of the pipeline that `ptick` renders next
+  scriptNums : List String := []       -- number classes of the script the case started from
 
 def addBr (st : St) (bs : List String) : St :=
   { st with br := bs.foldl (fun acc b => if acc.contains b then acc else b :: acc) st.br }
@@ -426,7 +474,11 @@ def judge (_id : String) (lines : Array String) : Verdict := Id.run do
       | ["panic"] => st := { st with evs := st.evs.push (.panic "build") }
       | _ => return .badop l
       match undumpAll d with
-      | some e => st := addBr { st with cur := .ok e } ("build" :: branches e)
+      | some e =>
+        st := addBr { st with cur := .ok e } ("build" :: branches e)
+        match (dumpFloats d).find? (fun c => !fltCanonical c) with
+        | some c => st := noteMism st s!"build: the float text {c} (strconv.FormatFloat of the value) is not what the model prints for it"
+        | none => pure ()
       | none => return .badop l
     | ["fmt"] =>
       match obs with
@@ -464,6 +516,8 @@ def judge (_id : String) (lines : Array String) : Verdict := Id.run do
       let some ev := treeEv "script" obs | return .badop l
       let some ss := unesc src | return .badop l
       st := addBr { st with evs := (st.evs.push (.source ss)).push ev, modelOff := some "script", curP := parseProgram ss } ["script"]
+      let cls := (dumpNumClasses obs).eraseDups
+      st := addBr { st with scriptNums := cls } (cls.map ("script-" ++ ·))
       st := cmpProg st "script" obs
     | ["sfmt"] =>
       match obs with
@@ -487,7 +541,8 @@ def judge (_id : String) (lines : Array String) : Verdict := Id.run do
           let some ds := unesc d | return .badop l
           let some js := unesc j | return .badop l
           let via := if st.afterPtick then "ptick-" ++ op else op
-          st := addBr { st with evs := st.evs.push (.pipe via (some (ds, js))), nt := true } ["pipeline-" ++ via]
+          st := addBr { st with evs := st.evs.push (.pipe via (some (ds, js))), nt := true }
+            (("pipeline-" ++ via) :: (if op == "pjson" || st.afterPtick then st.scriptNums.map ((via ++ "-") ++ ·) else []))
         | ["panic"] => st := { st with evs := st.evs.push (.panic op) }
         | _ => st := { st with evs := st.evs.push (.pipe (if st.afterPtick then "ptick-" ++ op else op) none) }
       else if op == "pnodes" then
